@@ -274,12 +274,6 @@ def insert(
     module = block.module
     cfg = block.ir.cfg
 
-    _add_return_edges_for_patch_calls(
-        cache,
-        module,
-        code.cfg,
-    )
-
     if isinstance(block, gtirb.CodeBlock):
         _update_patch_return_edges_to_match(
             cache, block, code.cfg, code.proxies
@@ -294,6 +288,14 @@ def insert(
         remove_block(cache, mid_block)
 
     _add_fallthrough_after_removed_terminator(cache, end_block)
+
+    # This has to happen after splitting so that return edges of the block
+    # being modified are attached to the part that holds the return.
+    _add_return_edges_for_patch_calls(
+        cache,
+        module,
+        code.cfg,
+    )
 
     # Stitch in the new blocks to the CFG
     if added_fallthrough:
